@@ -63,6 +63,14 @@ def pipeline(zone, east, north, ell_ht, vcv, forward):
 
 def run(repo, rep):
     alg.reset()
+    wire_rules(repo, rep)
+    shape_rules(repo, rep)
+    covariance_rules(repo, rep)
+    stage_rules(repo, rep)
+    rep.floor('R-FORMULA', 54, 'nine covariance elements: end to end (two directions, three input shapes) and per stage (two rotations, two directions of the similarity)')
+
+
+def wire_rules(repo, rep):
     rep.trust('opaque call atoms carry every formal parameter of the callee with defaults made explicit (sv/symval.py invoke)')
     rep.trust('the five callees themselves are the subject of C01, C02, C03, C06, C16')
     names = ['zone', 'easting', 'northing', 'ellipsoidal height', 'covariance']
@@ -125,10 +133,6 @@ def run(repo, rep):
                 else:
                     rep.holds('R-ROUND', key, '%s:%d' % (f.module.relpath, line), 'height rounded to %d decimals' % digits)
     rep.floor('R-WIRE', 30, 'five results of two functions in three covariance configurations')
-    shape_rules(repo, rep)
-    covariance_rules(repo, rep)
-    stage_rules(repo, rep)
-    rep.floor('R-FORMULA', 54, 'nine covariance elements: end to end (two directions, two input shapes) and per stage (two rotations, two directions of the similarity)')
 
 
 COV_ORACLE = '''
@@ -346,6 +350,16 @@ def shape_rules(repo, rep):
                 rep.undecided('R-SHAPE', key, where(f, f.node), 'result covariance for a %dx%d input: %s' % (shp[0], shp[1], show(out, 2, 80)))
 
 
+def wire_only(repo, rep):
+    alg.reset()
+    wire_rules(repo, rep)
+
+
+def stage_only(repo, rep):
+    alg.reset()
+    stage_rules(repo, rep)
+
+
 def controls(repo):
     out = []
     src = repo.sources['geodepy/transform.py']
@@ -368,7 +382,7 @@ def controls(repo):
             n.args = [ast.Name(id='lat_new', ctx=ast.Load()), ast.Name(id='lon_new', ctx=ast.Load())]
             return n
         substitute(fn, pred2, make2, limit=1, expect=1)
-    out.append(('covariance-rotated-at-input-position', repo.variant({'geodepy/transform.py': replace_in_function(src, 'transform_mga94_to_mga2020', stale_lat)}), 'covariance'))
+    out.append(('covariance-rotated-at-input-position', repo.variant({'geodepy/transform.py': replace_in_function(src, 'transform_mga94_to_mga2020', stale_lat)}), 'covariance', wire_only))
 
     def height_in(fn):
         def pred(n):
@@ -378,7 +392,7 @@ def controls(repo):
             n.args[2] = ast.Name(id='ell_ht', ctx=ast.Load())
             return n
         substitute(fn, pred, make, limit=1, expect=1)
-    out.append(('height-false-as-number', repo.variant({'geodepy/transform.py': replace_in_function(src, 'transform_mga2020_to_mga94', height_in)}), 'transform_mga2020_to_mga94'))
+    out.append(('height-false-as-number', repo.variant({'geodepy/transform.py': replace_in_function(src, 'transform_mga2020_to_mga94', height_in)}), 'transform_mga2020_to_mga94', wire_only))
     src3 = repo.sources['geodepy/statistics.py']
 
     def untransposed(fn):
@@ -390,5 +404,5 @@ def controls(repo):
             n.value = ast.parse('rot_matrix @ vcv_cart @ rot_matrix.transpose()').body[0].value
             return n
         substitute(fn, pred, make, limit=1, expect=1)
-    out.append(('covariance-rotated-the-wrong-way', repo.variant({'geodepy/statistics.py': replace_in_function(src3, 'vcv_cart2local', untransposed)}), 'vcv_cart2local'))
+    out.append(('covariance-rotated-the-wrong-way', repo.variant({'geodepy/statistics.py': replace_in_function(src3, 'vcv_cart2local', untransposed)}), 'vcv_cart2local', stage_only))
     return out
